@@ -118,7 +118,7 @@ structure State where
   deriving Repr, DecidableEq, Inhabited
 
 inductive Act where
-  | tau | incHard | decHard | incSoft | decSoft | tas | flagClear
+  | tau | incHard | decHard | undoHard | incSoft | decSoft | tas | flagClear
   | clearCb | freeMem | freeData | use
   deriving Repr, DecidableEq, Inhabited
 
@@ -188,7 +188,9 @@ def stepT (g : Shared) (t : Thread) : Option (Label × Shared × Thread) :=
     let g1 := touch g true
     some (lab .clearCb, { g1 with mem := false, clears := g1.clears + 1 }, { t with pc := .r2b k })
   | .r2b k =>
-    some (lab .freeMem, { g with freesMem := g.freesMem + 1 }, { t with pc := .w1 k })
+    -- free(memory), then cstl_unique_ptr_init writes the unique pointer inside the bookkeeping block
+    let g1 := touch g false
+    some (lab .freeMem, { g1 with freesMem := g1.freesMem + 1 }, { t with pc := .w1 k })
   | .w1 k =>
     let g1 := touch g false
     let old := g1.soft
@@ -223,7 +225,7 @@ def stepT (g : Shared) (t : Thread) : Option (Label × Shared × Thread) :=
           { t with sh := t.sh.set j true, obs := g1.soft, pc := .l4 w j })
   | .l3n w j =>
     let g1 := touch g false
-    some (lab .decHard g1.hard, { g1 with hard := dec g1.hard }, { t with obs := g1.hard, pc := .l4 w j })
+    some (lab .undoHard g1.hard, { g1 with hard := dec g1.hard }, { t with obs := g1.hard, pc := .l4 w j })
   | .l4 _ _ =>
     let g1 := touch g false
     some (lab .flagClear, { g1 with flag := false }, { t with pc := .idle })
@@ -265,14 +267,5 @@ def init (cfg : List (List Bool × List Bool × List Op)) : State :=
   { g := initShared ts, ts := ts }
 
 def Thread.finished (t : Thread) : Bool := t.pc == .idle && t.prog.isEmpty
-
-/-- run the thread-local steps of thread `tid` until its next step is a
-micro-step on shared state (or it is finished) -/
-def settle : Nat → State → Nat → State
-  | 0, s, _ => s
-  | fuel + 1, s, tid =>
-    match stepL s tid with
-    | some (l, s') => if l.act == .tau then settle fuel s' tid else s
-    | none => s
 
 end Cstl.Conc
